@@ -1381,6 +1381,134 @@ theorem closestPointsWorld3_sm_halfspace (S1 : V3 K → Prop) (pos1 pos2 : Iso3 
   simp only [Glue.closestPointsWorld3, hd, Option.map_some]
 
 
+/-- **`query::distance(pos1, ball1, pos2, ball2)`, world space, full statement** (unit quaternions, radii `≥ 0`): the value is
+`≥ 0`, a lower bound of the distance between any point of the first placed ball and any point of the second, and attained. -/
+theorem distanceWorld3_ball_ball (hs : LawfulSqrt sq) (pos1 pos2 : Iso3 K) (r1 r2 : K)
+    (h1 : C03.Unit3 pos1) (h2 : C03.Unit3 pos2) (hr1 : 0 ≤ r1) (hr2 : 0 ≤ r2) :
+    letI := fieldNum K sq
+    letI := fieldBits K
+    ∃ D, Glue.distanceWorld3 pos1 (.ball r1) pos2 (.ball r2) = some D ∧ 0 ≤ D ∧
+      (∀ x y, BallAt r1 ⟨0, 0, 0⟩ x → BallAt r2 ⟨0, 0, 0⟩ y → D * D ≤ gapW sq pos1 pos2 x y) ∧
+      (∃ x y, BallAt r1 ⟨0, 0, 0⟩ x ∧ BallAt r2 ⟨0, 0, 0⟩ y ∧ gapW sq pos1 pos2 x y = D * D) := by
+  letI := fieldNum K sq
+  letI := fieldBits K
+  have hu : C03.Unit3 (pos1.invMul pos2) := C03.unit3_invMul sq pos1 pos2 h1 h2
+  obtain ⟨h0, hlow, a, b, ha, hb, hab⟩ := distanceBallBall_spec sq hs r1 r2 (pos1.invMul pos2).t hr1 hr2
+  refine ⟨_, rfl, h0, ?_, ?_⟩
+  · intro x y hx hy
+    rw [gapW_eq_gapL sq pos1 pos2 x y h1 h2]
+    exact hlow x _ hx (ballAt_act sq _ r2 y hu hy)
+  · refine ⟨a, (pos1.invMul pos2).invAct b, ha, ballAt_invAct sq _ r2 b hu hb, ?_⟩
+    rw [gapW_eq_gapL sq pos1 pos2 _ _ h1 h2]
+    unfold gapL
+    rw [(C03.iso3_invAct_act sq _ b hu).2]
+    exact hab
+
+/-- **`distance_segment_segment` is the true minimum distance** (kernel level, shape 2 placed by `pos12`; tolerance tests exact,
+`SegExact3`): the value `D` is `≥ 0`; either it is attained by a pair of points of the two segments and no pair is closer
+(`D² = gap(p1,p2) ≤ gap(x,y)`), or every pair is farther apart than `f64::MAX` (then the function answers `0`; outside the
+domain of the property). -/
+theorem distanceSegmentSegment3_spec (hs : LawfulSqrt sq) (pos12 : Iso3 K) (a1 b1 a2 b2 : V3 K) :
+    letI := fieldNum K sq
+    letI := fieldBits K
+    SegExact3 sq a1 b1 (pos12.act a2) (pos12.act b2) →
+    0 ≤ Glue.distanceSegmentSegment3 pos12 a1 b1 a2 b2 ∧
+    ((∃ p1 p2, SegAt sq a1 b1 p1 ∧ SegAt sq a2 b2 p2 ∧
+        Glue.distanceSegmentSegment3 pos12 a1 b1 a2 b2 * Glue.distanceSegmentSegment3 pos12 a1 b1 a2 b2 = gapL sq pos12 p1 p2 ∧
+        ∀ x y, SegAt sq a1 b1 x → SegAt sq a2 b2 y → gapL sq pos12 p1 p2 ≤ gapL sq pos12 x y) ∨
+     (Glue.distanceSegmentSegment3 pos12 a1 b1 a2 b2 = 0 ∧
+        ∀ x y, SegAt sq a1 b1 x → SegAt sq a2 b2 y → (realMax : K) * realMax < gapL sq pos12 x y)) := by
+  letI := fieldNum K sq
+  letI := fieldBits K
+  intro hex
+  have hspec := closestPointsSegmentSegment_spec sq pos12 a1 b1 a2 b2 realMax hex
+  unfold Glue.distanceSegmentSegment3
+  cases hc : closestPointsSegmentSegment pos12 a1 b1 a2 b2 realMax with
+  | intersecting => rw [hc] at hspec; exact hspec.elim
+  | disjoint =>
+    rw [hc] at hspec
+    exact ⟨le_refl _, Or.inr ⟨rfl, hspec⟩⟩
+  | within p1 p2 =>
+    rw [hc] at hspec
+    obtain ⟨hp1, hp2, hmin, _⟩ := hspec
+    have hnn : 0 ≤ ((pos12.act p2).sub p1).normSq := by
+      simp only [V3.normSq, V3.dot]; nlinarith [mul_self_nonneg ((pos12.act p2).sub p1).x, mul_self_nonneg ((pos12.act p2).sub p1).y, mul_self_nonneg ((pos12.act p2).sub p1).z]
+    simp only [V3.norm, fieldNum_sqrt]
+    exact ⟨hs.nonneg _ hnn, Or.inl ⟨p1, p2, hp1, hp2, hs.sq_mul _ hnn, hmin⟩⟩
+
+/-- **`query::distance(pos1, segment1, pos2, segment2)`, world space**: routing + `inv_mul` + kernel. For unit quaternions and
+exact tolerance tests the value is `≥ 0`, attained by a pair of world points of the two placed segments, and no world pair is
+closer (or every pair is farther apart than `f64::MAX`). -/
+theorem distanceWorld3_segment_segment (hs : LawfulSqrt sq) (pos1 pos2 : Iso3 K) (a1 b1 a2 b2 : V3 K)
+    (h1 : C03.Unit3 pos1) (h2 : C03.Unit3 pos2) :
+    letI := fieldNum K sq
+    letI := fieldBits K
+    SegExact3 sq a1 b1 ((pos1.invMul pos2).act a2) ((pos1.invMul pos2).act b2) →
+    ∃ D, Glue.distanceWorld3 pos1 (.segment a1 b1) pos2 (.segment a2 b2) = some D ∧ 0 ≤ D ∧
+      ((∃ p1 p2, SegAt sq a1 b1 p1 ∧ SegAt sq a2 b2 p2 ∧ D * D = gapW sq pos1 pos2 p1 p2 ∧
+          ∀ x y, SegAt sq a1 b1 x → SegAt sq a2 b2 y → gapW sq pos1 pos2 p1 p2 ≤ gapW sq pos1 pos2 x y) ∨
+       (D = 0 ∧ ∀ x y, SegAt sq a1 b1 x → SegAt sq a2 b2 y → (realMax : K) * realMax < gapW sq pos1 pos2 x y)) := by
+  letI := fieldNum K sq
+  letI := fieldBits K
+  intro hex
+  obtain ⟨h0, h⟩ := distanceSegmentSegment3_spec sq hs (pos1.invMul pos2) a1 b1 a2 b2 hex
+  refine ⟨_, rfl, h0, ?_⟩
+  rcases h with ⟨p1, p2, hp1, hp2, e, hmin⟩ | ⟨e, hfar⟩
+  · left
+    refine ⟨p1, p2, hp1, hp2, ?_, ?_⟩
+    · rw [gapW_eq_gapL sq pos1 pos2 p1 p2 h1 h2]; exact e
+    · intro x y hx hy
+      rw [gapW_eq_gapL sq pos1 pos2 p1 p2 h1 h2, gapW_eq_gapL sq pos1 pos2 x y h1 h2]; exact hmin x y hx hy
+  · right
+    refine ⟨e, fun x y hx hy => ?_⟩
+    rw [gapW_eq_gapL sq pos1 pos2 x y h1 h2]; exact hfar x y hx hy
+
+/-- **`query::closest_points` through the GJK route answers `Disjoint` only when the placed shapes are farther apart than
+`max_dist`** (world space; routing + `inv_mul` + `closest_points_support_map_support_map` + `transform_by`). `hroute` says the
+dispatcher takes the support-map route for this pair of kinds (true by `rfl` for every pair of non-ball, non-half-space kinds
+that are not both segments, see the example below); the support contract is the C10 one for the obstacle `A ⊖ pos12·B`.
+The alternative is GJK's non-convergence fallback (`niter == 100`). -/
+theorem closestPointsWorld3_gjk_disjoint_sound (hs : LawfulSqrt sq) (A B : V3 K → Prop) (pos1 pos2 : Iso3 K) (g1 g2 : DSh3 K) (m : K)
+    (h1 : C03.Unit3 pos1) (h2 : C03.Unit3 pos2) (hm : 0 ≤ m) :
+    letI := fieldNum K sq
+    letI := fieldBits K
+    Glue.dispatchCP3 (pos1.invMul pos2) g1 g2 m =
+      Glue.closestPointsSmSm3 (fromShapes3 g1.loc (g2.posed (pos1.invMul pos2))) (pos1.invMul pos2) m →
+    SupportsCSO3 (Obstacle3 sq A B (pos1.invMul pos2)) (fromShapes3 g1.loc (g2.posed (pos1.invMul pos2))) →
+    Glue.closestPointsWorld3 pos1 g1 pos2 g2 m = some .disjoint →
+    WorldSpec sq A B pos1 pos2 m .disjoint ∨
+      (gjkClosestPoints3 (fromShapes3 g1.loc (g2.posed (pos1.invMul pos2))) (some m) true
+        (gjkStart3 (fromShapes3 g1.loc (g2.posed (pos1.invMul pos2))) (pos1.invMul pos2).t none Vs3.new)).1 = .noIntersection ⟨1, 0, 0⟩ := by
+  letI := fieldNum K sq
+  letI := fieldBits K
+  intro hroute hsup hw
+  unfold Glue.closestPointsWorld3 at hw
+  rw [hroute] at hw
+  cases hc : Glue.closestPointsSmSm3 (fromShapes3 g1.loc (g2.posed (pos1.invMul pos2))) (pos1.invMul pos2) m with
+  | none => rw [hc] at hw; simp at hw
+  | some r =>
+    rw [hc] at hw
+    simp only [Option.map_some, Option.some.injEq] at hw
+    cases r with
+    | intersecting => simp [Glue.transformBy3] at hw
+    | within p1 p2 => simp [Glue.transformBy3] at hw
+    | disjoint =>
+      rcases closestPointsSmSm3_disjoint_sound sq hs A B _ (pos1.invMul pos2) m hm hsup hc with h | h
+      · exact Or.inl (transformBy3_spec sq A B pos1 pos2 m .disjoint h1 h2 h)
+      · exact Or.inr h
+
+/-- the routing hypothesis of `closestPointsWorld3_gjk_disjoint_sound` holds by computation, e.g. cuboid × triangle, capsule × rounded
+cuboid, segment × cone -/
+example (P : Iso3 ℚ) (m : ℚ) (he a b c : V3 ℚ) (r : ℚ) :
+    letI := fieldNum ℚ (fun x => x)
+    letI := fieldBits ℚ
+    (Glue.dispatchCP3 P (.cuboid he) (.triangle a b c) m =
+      Glue.closestPointsSmSm3 (fromShapes3 (DSh3.cuboid he).loc ((DSh3.triangle a b c).posed P)) P m) ∧
+    (Glue.dispatchCP3 P (.capsule a b r) (.round (.cuboid he) r) m =
+      Glue.closestPointsSmSm3 (fromShapes3 (DSh3.capsule a b r).loc ((DSh3.round (.cuboid he) r).posed P)) P m) ∧
+    (Glue.dispatchCP3 P (.segment a b) (.cone r r) m =
+      Glue.closestPointsSmSm3 (fromShapes3 (DSh3.segment a b).loc ((DSh3.cone r r).posed P)) P m) := ⟨rfl, rfl, rfl⟩
+
 end world
 
 /-- non-vacuity of the side conditions of the world theorems: two unit quaternions over `ℚ` (one far from the origin), a unit
